@@ -459,6 +459,8 @@ def gen_requests(rng, n, read_only=False):
         k += 1
         m = rng.choice(readers + ([] if read_only else writers) + ["REPORT", "PROPFIND"])
         login = rng.choice([L] * 8 + [None, "v:"])
+        if rng.random() < 0.04:
+            out.append(dict(method="_WIPECACHE", path=rng.choice(["/u/cal/", "/u/ab/", "/u/cal2/"]), kind="wipe"))
         r = dict(method=m, login=login, headers={})
         if m in ("GET", "HEAD"):
             r["path"] = rng.choice(items + colls + ["/.web/", "/.web", "", "/u/cal"])
